@@ -11,7 +11,8 @@ CLAIMED = {
         text="Every path of can_apply_to x apply_to of the eight expression-level rules (all options) is enumerated from source "
              "over node-kind / None / sign / identifier-equality classes; for each applicable case the value term of the "
              "rewritten region is proven equal to that of the matched region by a syntactic normal form, or reported with a "
-             "numeric witness of the term algebra. Exhaustive over shape classes, at any position of any well-formed tree.",
+             "numeric witness of the term algebra. Exhaustive over shape classes, at any position of any well-formed tree. "
+             "factor(), which the judgement summarises, is checked against its contract (every entry a factor pair, also for negative values); the clone / evaluate / traversal contracts are replayed under this property.",
         note="Assumes well-formed input trees (W), the summaries of clone/evaluate/find_type/factor (each checked by a clause of "
              "C13/C05/C14/C16) and numpy.min/max returning a member. Does not decide rounding of folded constants, non-finite "
              "constants, or BalancedMove (judged as an equation rewrite under C02).",
@@ -19,7 +20,8 @@ CLAIMED = {
     "C02": dict(
         technique="abstract interpretation with materialised ancestor chains + normal-form comparison of L-R up to a non-zero unit",
         text="All applicable cases of BalancedMove (chains of up to 4/6 ancestors between the moved node and '=', every kind and "
-             "side), the equation flip, and every other rule on an '=' node: L-R equals a proven non-zero multiple of L'-R'.",
+             "side), the equation flip, and every other rule on an '=' node: L-R equals a proven non-zero multiple of L'-R'. "
+             "An equation 'holds' exactly when EqualExpression.operate accepts its sides (shared clause of C05).",
         note="W: '=' only at the root; chain length bound (quick 4, thorough 6 levels above the node). Numeric truth of an "
              "equation and chained equations are not decided.",
         design="4 C02"),
@@ -27,7 +29,8 @@ CLAIMED = {
         technique="abstract interpretation: effect log per classifier path, raise outcomes per case; abstract visit sequence for the search",
         text="No path of any rule's can_apply_to stores to a pre-existing node; no path raises in the check or in apply_to after "
              "a positive answer (asserts, None dereferences, evaluate() using the operator table's may-raise facts); find_nodes/"
-             "find_node are exact over an abstract in-order sequence.",
+             "find_node are exact over an abstract in-order sequence. "
+             "clone() / clone_from_root() conform to the summary used (shared clauses C13.R2-R4); evaluate / traversal contracts replayed.",
         note="W; in-order traversal semantics from C14; may-raise facts from the C05 operator table and the external table "
              "(np.power, math.factorial).",
         design="4 C06"),
@@ -35,7 +38,8 @@ CLAIMED = {
         technique="abstract interpretation with a materialising heap: audit of the final points-to graph; who-may-write rule",
         text="For every applicable case: child.parent consistency, arity, no node twice (including nodes that outlive the call), "
              "re-attachment on the saved slot, context untouched, nothing dropped or invented, BalancedMove's source tree "
-             "untouched; link fields of nodes are written only in the link primitives (type-resolved).",
+             "untouched; link fields of nodes are written only in the link primitives (type-resolved). "
+             "clone and traversal contracts are replayed under this property.",
         note="W; clone summary (C13). Bookkeeping fields (classes, _changed, ids) are outside the statement.",
         design="4 C07"),
     "C13": dict(
@@ -43,21 +47,24 @@ CLAIMED = {
         text="clone() of each of the 12 classes builds a fresh same-class node whose children are the clones of the children on "
              "the same sides with id/payload/operand side copied; clone_from_root() returns the copy of the receiver at the "
              "same position of a complete copy (ancestor chains <= 2, every kind and side; and, with the real clone() on every "
-             "node, for every node of every tree of depth <= 2 over five node kinds).",
+             "node, for every node of every tree of depth <= 2 over five node kinds). "
+             "Every tree a rewrite produces has consistent links (shared clause C07.R1).",
         note="Induction hypothesis for recursive clone() of proper subtrees; clone_from_root(other_node) not decided.",
         design="4 C13"),
     "C14": dict(
         technique="abstract interpretation with inductive summaries; event-trace refinement against the specification trace",
         text="Each visit_* over all child-presence shapes and stop positions emits exactly the defining order with true depth and "
              "immediate STOP; look-ups (to_list, find_id, find_type, get_side, get_sibling, get_children, get_root, "
-             "get_root_side, is_leaf) agree with traversals and links in every local configuration.",
+             "get_root_side, is_leaf) agree with traversals and links in every local configuration. "
+             "The link queries are also analysed with node classes that compare by value (when the package defines any) among the operands.",
         note="Induction hypothesis for recursive visits of proper subtrees; descent of loop-based code bounded to 3 levels.",
         design="4 C14"),
     "C15": dict(
         technique="points-to analysis with strong updates over all neighbourhood configurations of rotate",
         text="rotate interpreted over 25 configurations (root / left / right child x grandparent cases x inner subtree presence): "
              "links consistent, node above former parent, grandparent slot updated, in-order sequence unchanged, root no-op; "
-             "AssociativeSwap applies exactly this rotation.",
+             "AssociativeSwap applies exactly this rotation. "
+             "Also with every node ranging independently over two node classes, and over classes that compare by value when the package defines any.",
         note="Input links consistent; node identity comparison (language guard).",
         design="4 C15"),
 }
